@@ -3,6 +3,7 @@ package main
 import (
 	"fmt"
 	"go/ast"
+	"go/token"
 	"go/types"
 	"strings"
 )
@@ -278,4 +279,104 @@ func (c *Ctx) checkLockPairing(rule string, pkgRels ...string) int {
 		}
 	}
 	return total
+}
+
+// checkCounterBalance: a struct field used as a nesting counter (x.f++ ...
+// x.f--) must be decremented on every non-panicking path from the increment
+// to the function's exit and before the increment can execute again (the next
+// loop iteration). A path that skips the decrement — an early `continue` or
+// `return` between the two — leaves the counter raised for everything that
+// follows.
+func (c *Ctx) checkCounterBalance(rule string, pkgRel string, exempt map[string]string) int {
+	n := 0
+	for _, f := range c.funcs(c.pkg(pkgRel)) {
+		g := c.graph(f)
+		k := 0
+		for _, nd := range g.Nodes {
+			inc, ok := nd.N.(*ast.IncDecStmt)
+			if !ok || inc.Tok != token.INC {
+				continue
+			}
+			sel, ok := ast.Unparen(inc.X).(*ast.SelectorExpr)
+			if !ok {
+				continue
+			}
+			if v, ok := f.Info().Uses[sel.Sel].(*types.Var); !ok || !v.IsField() {
+				continue
+			}
+			name := exprString(inc.X)
+			decs := map[int]bool{}
+			for _, m := range g.Nodes {
+				switch s := m.N.(type) {
+				case *ast.IncDecStmt:
+					if s.Tok == token.DEC && exprString(s.X) == name {
+						decs[m.ID] = true
+					}
+				case *ast.DeferStmt:
+					// defer func() { x.f-- }()
+					ast.Inspect(s, func(y ast.Node) bool {
+						if d, ok := y.(*ast.IncDecStmt); ok && d.Tok == token.DEC && exprString(d.X) == name {
+							decs[m.ID] = true
+						}
+						return true
+					})
+				}
+			}
+			if len(decs) == 0 {
+				continue // a plain counter, not a nesting counter
+			}
+			k++
+			n++
+			key := fmt.Sprintf("%s#%s%d", f.Name, sel.Sel.Name, k)
+			// deferred decrement registered before the increment covers all exits
+			deferred := false
+			for id := range decs {
+				if _, isDefer := g.Nodes[id].N.(*ast.DeferStmt); isDefer && g.mustPassNode(nd.ID, map[int]bool{id: true}) {
+					deferred = true
+				}
+			}
+			// the increment is often conditional (`if f.IsDef() { x.n++ }`) and the
+			// decrement guarded by the very same test: paths on which the test
+			// comes out differently the second time are infeasible as long as
+			// the tested expression is not reassigned in between
+			guard := ""
+			ast.Inspect(f.Body, func(y ast.Node) bool {
+				if is, ok := y.(*ast.IfStmt); ok && is.Else == nil && len(is.Body.List) >= 1 && is.Body.List[0] == ast.Stmt(inc) {
+					guard = exprString(is.Cond)
+				}
+				return true
+			})
+			sameGuardFalse := func(from int, e GEdge) bool {
+				if guard == "" {
+					return false
+				}
+				if e.Cond != nil && !e.Truth && exprString(e.Cond) == guard {
+					return true
+				}
+				if e.SwitchTag != nil && e.CaseVal != nil && !e.Truth && exprString(e.SwitchTag) == guard && exprString(e.CaseVal) == "true" {
+					return true
+				}
+				return false
+			}
+			bad := ""
+			if !deferred {
+				for _, e := range nd.Succs {
+					if decs[e.To] {
+						continue
+					}
+					r := g.reach([]int{e.To}, func(id int) bool { return decs[id] }, sameGuardFalse)
+					switch {
+					case r[g.Exit]:
+						bad = "the function can return with the counter raised"
+					case r[nd.ID] && e.To != nd.ID:
+						bad = "the increment can execute again (next loop iteration) before the decrement"
+					}
+				}
+			}
+			reason, exc := exempt[key]
+			c.check(rule, key, inc.Pos(), bad == "" || exc,
+				name+"++ must be undone by "+name+"-- on every path: "+bad+" "+reason)
+		}
+	}
+	return n
 }
